@@ -350,6 +350,12 @@ func writeAll(w *os.File, data []byte) error {
 }
 
 func writeLinkEvent(dir string, opts GlobalOptions, eventType, from, to string) error {
+	return writeLinkEvents(dir, opts, eventType, []sequenceEdge{{FromID: from, ToID: to}})
+}
+
+// writeLinkEvents validates and records a batch of link/unlink edges as one
+// transaction: either every edge is appended or none is.
+func writeLinkEvents(dir string, opts GlobalOptions, eventType string, edges []sequenceEdge) error {
 	lockPath := filepath.Join(dir, "lock")
 	eventsPath := getEventsPath(dir)
 	return withLock(lockPath, syscall.LOCK_EX, func() error {
@@ -357,43 +363,57 @@ func writeLinkEvent(dir string, opts GlobalOptions, eventType, from, to string) 
 		if err != nil {
 			return err
 		}
-		if _, ok := graph.Tombstones[from]; ok {
-			return prunedErr(from)
-		}
-		if _, ok := graph.Tombstones[to]; ok {
-			return prunedErr(to)
-		}
-		fromItem, ok := graph.Tasks[from]
-		if !ok {
-			return fmt.Errorf("unknown id %s", from)
-		}
-		toItem, ok := graph.Tasks[to]
-		if !ok {
-			return fmt.Errorf("unknown id %s", to)
-		}
-		// Validate dependency rules
-		if err := validateDepSelf(from, to); err != nil {
-			return err
-		}
-		if err := validateDepKinds(isEpic(fromItem), isEpic(toItem)); err != nil {
-			return err
-		}
-		// Cycle detection for new links
-		if eventType == "link" {
-			if hasCycle(graph, from, to) {
-				return errors.New("dependency would create a cycle")
+		events := make([]Event, 0, len(edges))
+		for _, edge := range edges {
+			from, to := edge.FromID, edge.ToID
+			if _, ok := graph.Tombstones[from]; ok {
+				return prunedErr(from)
 			}
+			if _, ok := graph.Tombstones[to]; ok {
+				return prunedErr(to)
+			}
+			fromItem, ok := graph.Tasks[from]
+			if !ok {
+				return fmt.Errorf("unknown id %s", from)
+			}
+			toItem, ok := graph.Tasks[to]
+			if !ok {
+				return fmt.Errorf("unknown id %s", to)
+			}
+			// Validate dependency rules
+			if err := validateDepSelf(from, to); err != nil {
+				return err
+			}
+			if err := validateDepKinds(isEpic(fromItem), isEpic(toItem)); err != nil {
+				return err
+			}
+			// Cycle detection for new links
+			if eventType == "link" {
+				if hasCycle(graph, from, to) {
+					return errors.New("dependency would create a cycle")
+				}
+			}
+			// Apply to the in-memory graph so later edges are checked against earlier ones
+			if eventType == "link" {
+				if graph.Deps[from] == nil {
+					graph.Deps[from] = map[string]struct{}{}
+				}
+				graph.Deps[from][to] = struct{}{}
+			} else if graph.Deps[from] != nil {
+				delete(graph.Deps[from], to)
+			}
+			now := time.Now().UTC()
+			event, err := newEvent(eventType, now, LinkEvent{
+				FromID: from,
+				ToID:   to,
+				Type:   dependsLinkType,
+			})
+			if err != nil {
+				return err
+			}
+			events = append(events, event)
 		}
-		now := time.Now().UTC()
-		event, err := newEvent(eventType, now, LinkEvent{
-			FromID: from,
-			ToID:   to,
-			Type:   dependsLinkType,
-		})
-		if err != nil {
-			return err
-		}
-		return appendEvents(eventsPath, []Event{event})
+		return appendEvents(eventsPath, events)
 	})
 }
 
